@@ -3,6 +3,7 @@ package main
 import (
 	"math/rand"
 	"os"
+	"regexp"
 	"strings"
 	"time"
 
@@ -68,8 +69,11 @@ func genericRun(sp stagePlan) func(rep *Report, def *propDef) {
 		if rep.Tier == "thorough" {
 			budget = 60 * time.Minute
 		}
-		// development aid (tools/try_seed.sh): stop at the first stage that has a finding
-		failFast := func() bool { return os.Getenv("VERIF_FAILFAST") != "" && len(rep.Findings) > 0 }
+		// development aid (tools/try_seed.sh): stop at the first stage that has a finding which
+		// reproduces in a fresh process
+		failFast := func() bool {
+			return os.Getenv("VERIF_FAILFAST") != "" && len(rep.Findings) > 0 && rep.anyConfirmed()
+		}
 		for i, cp := range sp.covers {
 			cats := cp.cats(rep.Seed*7919+int64(i), rep.Tier)
 			st, err := coverStage(cp.name, cats, cp.bounds, budget, 24, rep.Tier == "thorough" && i == 0)
@@ -244,6 +248,12 @@ var properties = map[string]*propDef{}
 
 func register(d *propDef) { properties[d.id] = d }
 
+// infoOuts: the expected and the reported outputs in an Info divergence of the front-end stage
+var infoOuts = regexp.MustCompile(`ProvideInfo want in=\[.*?\] out=(\[.*?\]) got in=\[.*?\] out=(\[.*?\])`)
+
+// optTagged: the descriptor of a front-end case that carries a non-empty `optional` tag
+var optTagged = regexp.MustCompile(`"opt":"[^"]`)
+
 func contains(s string, subs ...string) bool {
 	for _, x := range subs {
 		if strings.Contains(s, x) {
@@ -276,6 +286,9 @@ func init() {
 				structCover("chain", fam.Chain, recBoth, false, 30, 500, 2, 1),
 				wideCover("chain", fam.Chain, recBoth, false, 250, 1),
 				structCover("shadow", fam.Shadow, rec, false, 30, 0, 2, 0),
+				// zero stands in only for what nobody can build: gaps below optional edges, with
+				// a shadowed provider further up
+				structCover("gaps", fam.Gaps, rec, false, 40, 0, 2, 0),
 			},
 			traces: stdTraces("core", medium, 0.05, stdOpts)})})
 
@@ -313,6 +326,8 @@ func init() {
 				structCover("groups", fam.Groups, rec, false, 15, 40, 2, 0),
 				wideCover("groups", fam.Groups, rec, false, 60, 0),
 				wideCover("reenter", fam.Reenter, rec, false, 40, 0),
+				// what stays outside the closure when an optional edge meets a gap
+				structCover("gaps", fam.Gaps, rec, false, 40, 0, 2, 0),
 			},
 			traces: stdTraces("lazy", medium, 0.06, stdOpts)})})
 
@@ -320,6 +335,10 @@ func init() {
 		projection: "verdict class of Invoke (missing versus ok), the reported missing keys, zero versus value for optional parameters, executions past a known gap",
 		kinds:      []string{"mk", "args.opt"},
 		extra: func(k, d string) bool {
+			// (front end) how an `optional` tag is read: every spelling of a boolean, nothing else
+			if strings.HasPrefix(k, "verdict.") && optTagged.MatchString(d) {
+				return true
+			}
 			return (k == "verdict.invoke" && contains(d, "missing", "want ok")) || (k == "exec.extra")
 		},
 		run: genericRun(stagePlan{
@@ -331,7 +350,8 @@ func init() {
 				// a gap far below an optional edge: behind a value group, behind a decorator
 				structCover("gaps", fam.Gaps, rec, false, 40, 0, 2, 0),
 			},
-			traces: stdTraces("missing", tweak(medium, func(f *fam.Features) { f.POpt = 0.4; f.Types = 6 }), 0.1, stdOpts)})})
+			traces: stdTraces("missing", tweak(medium, func(f *fam.Features) { f.POpt = 0.4; f.Types = 6 }), 0.1, stdOpts),
+			sig:    true})})
 
 	register(&propDef{id: "C05",
 		projection: "cycle verdicts of Provide and Invoke (three zones), IsCycleDetected, process survival, executions on a cycle",
@@ -436,6 +456,12 @@ func init() {
 		extra: func(k, d string) bool {
 			// an empty group name would alias the key of the unnamed single value
 			emptyGroup := contains(d, `"grp":",`, `"group":",`)
+			// (front end) the keys an accepted Provide occupies are the outputs it reports
+			if k == "info" {
+				if m := infoOuts.FindStringSubmatch(d); m != nil && m[1] != m[2] {
+					return true
+				}
+			}
 			return (strings.HasPrefix(k, "verdict.provide") && (contains(d, "dup", "want ok") || emptyGroup)) || (k == "verdict.invoke" && contains(d, "missing")) || (k == "crash" && emptyGroup)
 		},
 		run: genericRun(stagePlan{
@@ -600,8 +626,13 @@ func init() {
 		projection: "ProvideInfo / DecorateInfo / InvokeInfo entries (strings, counts, order), untouched on rejection, constructor ids",
 		kinds:      []string{"info"},
 		run: genericRun(stagePlan{
-			covers: []coverPlan{randCover("info", small, rec, 60, 400, 0), libCover("lib", rec, false, 8, 80, 0)},
-			traces: stdTraces("info", medium, 0, stdOpts),
+			covers: []coverPlan{
+				randCover("info", small, rec, 60, 400, 0),
+				libCover("lib", rec, false, 8, 80, 0),
+				// what is reported does not depend on how the function then fares
+				randCover("info-failures", small, recBoth, 30, 300, 1),
+			},
+			traces: stdTraces("info", medium, 0.1, stdOpts),
 			sig:    true})})
 
 	register(&propDef{id: "C19",
